@@ -17,6 +17,9 @@ func VP_C10_assume_rounds() {
 		zzvp.Reach("base-unsat")
 	}
 	s := New(pb)
+	if pb.Status != Unsat {
+		vpWatchLearned(s, n, func(a int) bool { return vpCNFHolds(orig, a) })
+	}
 	rounds := zzvp.Choose("rounds", zzvp.Param("rounds", 2)) + 1
 	for r := 0; r < rounds; r++ {
 		ka := zzvp.Choose("ka", zzvp.Param("ka", 2)+1)
@@ -97,6 +100,7 @@ func VP_C10_assume_skeleton() {
 	}
 	s := New(ParseSliceNb(cnf, n))
 	vpSteer(s)
+	vpWatchLearned(s, n, func(a int) bool { return vpCNFHolds(orig, a) })
 	rounds := zzvp.Choose("rounds", zzvp.Param("rounds", 2)) + 1
 	for r := 0; r < rounds; r++ {
 		ka := zzvp.Choose("ka", zzvp.Param("ka", 2)+1)
@@ -125,4 +129,24 @@ func VP_C10_assume_skeleton() {
 			zzvp.Reach("unit-learned")
 		}
 	}
+}
+
+// vpWatchLearned installs the in-situ monitor of conflict analysis: every
+// clause or unit it learns must be a consequence of the formula alone (learned
+// clauses outlive the assumptions of the round they were learned in).
+func vpWatchLearned(s *Solver, n int, holds func(a int) bool) {
+	zzvp.ObserveReturn("(*github.com/crillab/gophersat/solver.Solver).learnClause",
+		func(s2 *Solver, confl *Clause, lvl decLevel, learned *Clause, unit Lit) {
+			if s2 != s {
+				return
+			}
+			a := zzvp.Int("la", 0, (1<<uint(n))-1)
+			if learned != nil {
+				zzvp.Assert(zzvp.Implies(holds(a), vpClauseHoldsA(learned, a)), "a learned clause is not a consequence of the formula alone")
+				zzvp.Reach("learned-clause")
+			} else if unit != -1 {
+				zzvp.Assert(zzvp.Implies(holds(a), vpLitTrue(int(unit.Int()), a)), "a learned unit is not a consequence of the formula alone")
+				zzvp.Reach("learned-unit")
+			}
+		})
 }
